@@ -287,29 +287,72 @@ class ModelBuilder:
     def nq(self):
         return len(self.qkinds) + self.nsph
 
-    def state_lines(self, zero_vel=False, with_tau=True):
+    def q_struct(self):
+        """structured generalized positions: list of ('a', t) | ('x', value) | ('quat', (x,y,z,w))"""
         g = self.g
         ents = []
-        ws = []
         i = 0
         qk = self.qkinds
         while i < len(qk):
             k = qk[i]
             if k in ("a", "a0", "a2"):
-                ents.append(g.angle_entry())
+                ents.append(("a", g.tparam()))
             elif k == "am":
-                ents.append(g.angle_entry(min_abs_cos=F(1, 4)))
+                while True:
+                    t = g.tparam()
+                    if abs((1 - t * t) / (1 + t * t)) >= F(1, 4):
+                        break
+                ents.append(("a", t))
             elif k == "x":
-                ents.append("x:" + fr(g.small()))
+                ents.append(("x", g.small()))
             elif k == "qx":
-                q = g.unit_quat()
-                ents += ["x:" + fr(q[0]), "x:" + fr(q[1]), "x:" + fr(q[2])]
-                ws.append("x:" + fr(q[3]))
+                ents.append(("quat", g.unit_quat()))
                 i += 2
             i += 1
-        ents += ws
+        return ents
+
+    @staticmethod
+    def render_q(ents):
+        toks, ws = [], []
+        for kind, v in ents:
+            if kind == "a":
+                c = (1 - v * v) / (1 + v * v)
+                s_ = 2 * v / (1 + v * v)
+                q = F(math.atan2(float(s_), float(c)))
+                toks.append("a:%s:%s:%s" % (fr(c), fr(s_), fr(q)))
+            elif kind == "x":
+                toks.append("x:" + fr(v))
+            else:
+                toks += ["x:" + fr(v[0]), "x:" + fr(v[1]), "x:" + fr(v[2])]
+                ws.append("x:" + fr(v[3]))
+        toks += ws
+        return "q %d %s" % (len(toks), " ".join(toks))
+
+    def perturb_q(self, ents, eps=F(1, 16)):
+        """a nearby configuration (quaternions stay unit: re-drawn close by)"""
+        g = self.g
+        out = []
+        for kind, v in ents:
+            if kind == "a":
+                out.append(("a", v + g.r.choice([-1, 1]) * eps))
+            elif kind == "x":
+                out.append(("x", v + g.r.choice([-1, 1]) * eps))
+            else:
+                # compose with a small rational rotation quaternion: (e,0,0,1) normalised rationally
+                e = eps
+                n = 1 + e * e
+                d = ((2 * e) / n, F(0), F(0), (1 - e * e) / n)   # unit
+                x, y, z, w = v
+                dx, dy, dz, dw = d
+                out.append(("quat", (w * dx + x * dw + y * dz - z * dy, w * dy + y * dw + z * dx - x * dz,
+                                     w * dz + z * dw + x * dy - y * dx, w * dw - x * dx - y * dy - z * dz)))
+        return out
+
+    def state_lines(self, zero_vel=False, with_tau=True, ents=None):
+        g = self.g
+        ents = ents if ents is not None else self.q_struct()
         nv = self.nv
-        out = ["q %d %s" % (len(ents), " ".join(ents))]
+        out = [self.render_q(ents)]
         if zero_vel:
             out.append("qd %d %s" % (nv, frs([F(0)] * nv)))
         else:
@@ -332,12 +375,13 @@ class ModelBuilder:
 
 
 def random_model(g, max_joints=5, forced_root=None, forced_inner=None, allow_custom=True,
-                 fixed_prob=0.35, allow_floating=True):
+                 fixed_prob=0.35, allow_floating=True, exclude=()):
     """A random tree. `forced_root` / `forced_inner` pin a joint kind at / below the root."""
     mb = ModelBuilder(g, allow_custom)
     kinds = [k for k in KINDS if allow_custom or not k.startswith("Custom")]
     if not allow_floating:
         kinds = [k for k in kinds if k != "FloatingBase"]
+    kinds = [k for k in kinds if k not in exclude]
     nj = g.r.randint(1, max_joints)
     name_ctr = [0]
 
@@ -641,9 +685,11 @@ def constrained_case(g, klasses, ncontacts, max_joints=4, baumgarte=False, allow
         if mb.nv < 3:
             continue
         grav = "gravity %s" % frs(g.vec(-3, 3))
-        st = mb.state_lines()
+        ents = mb.q_struct()
+        st = mb.state_lines(ents=ents)
         qline = st[0]
         cb = ConstraintBuilder(g, mb, grav, qline)
+        cb.q_ents = ents
         for _ in range(ncontacts):
             cb.add_contact()
         ok = True
